@@ -25,19 +25,24 @@ def run(tier, seed):
         shapes = [(0, "normal", False)] if fmt == "fido-u2f" else [(0, "normal", False), (1, "normal", False), (2, "normal", False), (2, "reversed", False), (1, "normal", True)]
         # 1. valid chains under every root configuration
         for (ni, order, extra) in shapes:
-            for mode in ("rp", "several", "none", "other-fmt", "isolation", "impostor", "unrelated", "rp-only"):
-                if mode == "rp-only" and fmt in PASSTHROUGH:
+            for mode in ("rp", "several", "none", "other-fmt", "isolation", "impostor", "unrelated", "rp-only", "extra-unrelated", "legacy-root"):
+                if mode in ("rp-only", "extra-unrelated") and fmt in PASSTHROUGH:
+                    continue
+                if mode == "legacy-root" and fmt not in PASSTHROUGH:
                     continue
                 s = regsim.RScn(fmt, "ES256-P256")
                 s.n_inter, s.roots_mode = ni, mode
+                if mode == "legacy-root":           # RP anchor without basicConstraints (keyUsage keyCertSign only): still an anchor in force
+                    s.roots_mode = "rp"
+                    s.k["pki_kw"] = dict(root_bc=False)
                 s.k["chain_order"] = order
                 if extra:
                     s.k["chain_extra"] = (regsim.PKI("Q", root_cn="Bystander").root,)
                 pd, reg = regsim.build(s)
                 if fmt in PASSTHROUGH:
-                    exp = "accept" if mode in ("rp", "several", "none", "other-fmt") else "reject"
+                    exp = "accept" if mode in ("rp", "several", "none", "other-fmt", "legacy-root") else "reject"
                 else:
-                    exp = "accept" if mode in ("rp", "several", "rp-only") else "reject"
+                    exp = "accept" if mode in ("rp", "several", "rp-only", "extra-unrelated") else "reject"
                     if fmt == "android-key" and mode == "several":
                         exp = "accept"
                 il, ml = B.run_case(regrun.policy_of(pd), reg, "dict", exp, f"{fmt}/inter={ni}/{order}/extra={extra}/roots={mode}", scn=s)
